@@ -390,7 +390,9 @@ def _tracerays(
             m = _numpy.cos(thetarad) / _numpy.sin(thetarad)
             xray = (layer_depth + m * pt[0] - pt[1]) / m
 
-        if xray > receivers_x:
+        # The segment that crosses the receiver line is clipped there and ends the ray
+        reached_receiver_line = xray > receivers_x
+        if reached_receiver_line:
             m = _numpy.cos(thetarad) / _numpy.sin(thetarad)
 
             xray = receivers_x
@@ -407,7 +409,10 @@ def _tracerays(
         ##-----------------------------------
         raycoo = _numpy.r_[raycoo, _numpy.array([[xray, layer_depth]])]
 
-        if xray > receivers_x:
+        if reached_receiver_line:
+            # (xray itself was set to receivers_x above.) Going on from the end point,
+            # which lies inside a layer, would discard the travel time of every ray that
+            # ends in the deepest layer
             break
 
         if (raycoo[-2, 1] > 0.0) and (
